@@ -221,7 +221,7 @@ func c12Neg(a []string) {
 // c12muted <verb> <format> <flags>: a logger whose error list was given one destination which was taken away again (the
 // list is empty: its records are written nowhere). An admitted Panic / Fatal terminates all the same.
 func c12Muted(a []string) {
-	if len(a) != 3 {
+	if len(a) != 3 && len(a) != 4 {
 		os.Exit(4)
 	}
 	flags, _ := strconv.ParseUint(a[2], 10, 64)
@@ -231,6 +231,12 @@ func c12Muted(a []string) {
 	gone := &recorder{}
 	l.SetErrorWriter(gone)
 	l.RemoveErrorWriter(gone)
+	if len(a) == 4 && a[3] == "dup" {
+		// the same destination registered twice and taken away once: it is still registered, the record is written first
+		l.SetErrorWriter(stdoutRec{})
+		l.AddErrorWriter(stdoutRec{})
+		l.RemoveErrorWriter(stdoutRec{})
+	}
 	defer func() {
 		if r := recover(); r != nil {
 			os.Stdout.WriteString("PANIC " + hex.EncodeToString([]byte(fmt.Sprint(r))) + "\n")
@@ -470,6 +476,13 @@ func runC12(r *run) {
 					want = "exit status 253"
 				}
 				r.seen("muted|" + b01(testing) + "|" + verb + "|" + format)
+				out2, code2 := c12Spawn(exe, testing, "c12muted", verb, format, strconv.FormatUint(fl, 10), "dup")
+				ok2 := strings.Contains(out2, "REC ") && ((verb != "Fatal" && code2 == 10 && strings.Contains(out2, want)) || (verb == "Fatal" && code2 == 253))
+				if !ok2 {
+					r.violate(violation{What: "an admitted " + verb + " did not write its record and then terminate: its error destination was registered twice and removed once",
+						Input:    map[string]any{"go_test_mode": testing, "flags": fl, "format": format, "configured_by": "SetErrorWriter(w); AddErrorWriter(w); RemoveErrorWriter(w)"},
+						Expected: "one record, then " + want, Actual: map[string]any{"exit": code2, "output_tail": tail(out2, 300)}})
+				}
 				if !ok {
 					r.violate(violation{What: "an admitted " + verb + " on a logger whose error writers were all removed did not terminate as " + verb + " does",
 						Input:    map[string]any{"go_test_mode": testing, "flags": fl, "format": format, "configured_by": "SetErrorWriter(w); RemoveErrorWriter(w)"},
